@@ -1508,7 +1508,20 @@ def gen_jwksloops(repo, build):
     return "JwksLoops.lean", text, info
 
 
-GENERATORS = [gen_base64, gen_alg, gen_common, gen_jwk, gen_ops, gen_cli, gen_conc, gen_ecframe, gen_ll, gen_base64code, gen_digests, gen_gates, gen_decisions, gen_dispatch, gen_claims, gen_jsonflags, gen_jwksloops]
+def gen_pipeline(repo, build):
+    """jwt-verify.c / jwt-common.c: decision skeletons of jwt_parse_payload, jwt_parse_head, jwt_parse, jwt_verify_complete and
+    jwt_checker_verify (tie/pipeline.py on the mini-C parser)"""
+    sys.path.insert(0, os.path.dirname(os.path.abspath(__file__)))
+    import cmini
+    import pipeline
+    try:
+        text, info = pipeline.generate(repo)
+    except (pipeline.PipelineError, cmini.CParseError) as e:
+        raise ExtractError("verification pipeline: %s" % e)
+    return "Pipeline.lean", text, info
+
+
+GENERATORS = [gen_base64, gen_alg, gen_common, gen_jwk, gen_ops, gen_cli, gen_conc, gen_ecframe, gen_ll, gen_base64code, gen_digests, gen_gates, gen_decisions, gen_dispatch, gen_claims, gen_jsonflags, gen_jwksloops, gen_pipeline]
 
 
 def main():
@@ -1519,7 +1532,9 @@ def main():
         try:
             name, text, info = g(repo, build)
         except ExtractError as e:
-            summary["errors"].append({"generator": g.__name__, "error": str(e)})
+            import inspect
+            outs = re.findall(r'return "(\w+)\.lean"', inspect.getsource(g))
+            summary["errors"].append({"generator": g.__name__, "error": str(e), "modules": ["Jwt.Generated." + o for o in outs]})
             continue
         path = os.path.join(out, name)
         old = open(path).read() if os.path.exists(path) else None
